@@ -33,7 +33,7 @@ def budget_for(ctx):
 
 
 def make_case(ctx, rng, weights=None, rules=None, snap_ballots=False, render=False, allow_eq=True,
-              meek_rational=False, allow_rational=True, budget=None, big=None, tweak=None):
+              meek_rational=False, allow_rational=True, budget=None, big=None, tweak=None, mutate_s=None):
     weights = dict(weights or DEFAULT_WEIGHTS)
     opts = configs.random_config(rng, rules, allow_rational=allow_rational, meek_rational=meek_rational)
     if tweak is not None:
@@ -70,6 +70,8 @@ def make_case(ctx, rng, weights=None, rules=None, snap_ballots=False, render=Fal
         F = 10 ** rng.randint(12, 20)
         s['lines'] = [(m * F + rng.randint(0, 3), r) for m, r in s['lines']]
         s['family'] = s['family'] + '+huge'
+    if mutate_s is not None:
+        mutate_s(rng, s)
     blt = gen.render(s)
     other = None
     if rng.random() < 0.08:
